@@ -110,7 +110,7 @@ def _mk(file, qual, run, post, variant, notes=None):
     sp = FunctionSpec(PROP, file, qual, {}, setup, post, theory=T, variant=variant, lemmas=[],
                       ext=False, decode=lambda env, m, r: {'function': qual, 'variant': variant}, notes=notes or [])
     sp.fn_override = run
-    sp.fn_info = {'file': file, 'qualname': qual, 'sha': _sha(file, qual.split(' ')[0]), 'loops': {}, 'dropped': []}
+    sp.fn_info = {'file': file, 'qualname': qual, 'sha': _sha(file, qual.split(' ')[0]) if '.' in qual or qual in ('pragmas_attached', 'pragma_regions_attached', 'dfa_attached') else None, 'loops': {}, 'dropped': []}
     return sp
 
 
@@ -250,6 +250,109 @@ def spec_dfa_detacher():
     return sp
 
 
+# ---- dispatch: every attach / detach visitor recurses into the children of every IR node class ---------------------
+import ast as _ast                 # noqa: E402
+from pyvc import rewrite as _rw    # noqa: E402
+NODE_FILES = ['loki/ir/nodes/abstract_nodes.py', 'loki/ir/nodes/internal_nodes.py', 'loki/ir/nodes/leaf_nodes.py',
+              'loki/ir/nodes/stmt_nodes.py']
+VISITOR_CHAINS = {
+    'PragmaAttacher': [('PragmaAttacher', PU), ('Visitor', 'loki/ir/visitor.py'), ('GenericVisitor', 'loki/ir/visitor.py')],
+    'PragmaDetacher': [('PragmaDetacher', PU), ('Visitor', 'loki/ir/visitor.py'), ('GenericVisitor', 'loki/ir/visitor.py')],
+    'PragmaRegionAttacher': [('PragmaRegionAttacher', PU), ('Transformer', 'loki/ir/transformer.py'), ('Visitor', 'loki/ir/visitor.py'),
+                             ('GenericVisitor', 'loki/ir/visitor.py')],
+    'PragmaRegionDetacher': [('PragmaRegionDetacher', PU), ('Transformer', 'loki/ir/transformer.py'), ('Visitor', 'loki/ir/visitor.py'),
+                             ('GenericVisitor', 'loki/ir/visitor.py')],
+}
+
+
+def _handlers(chain):
+    out = {}
+    for cls, file in reversed(chain):
+        node, _ = _rw.find_def(_ast.parse(_rw.read_source(file)), cls)
+        for st in node.body:
+            if isinstance(st, _ast.FunctionDef) and st.name.startswith('visit_'):
+                out[st.name[6:]] = (cls, file, st.name)
+            if isinstance(st, _ast.Assign) and isinstance(st.value, _ast.Name) and st.value.id.startswith('visit_'):
+                for t in st.targets:
+                    if isinstance(t, _ast.Name) and t.id.startswith('visit_') and st.value.id[6:] in out:
+                        out[t.id[6:]] = out[st.value.id[6:]]
+    return out
+
+
+def _node_classes():
+    decl, trav = {}, {}
+    for f in NODE_FILES:
+        for n in _ast.parse(_rw.read_source(f)).body:
+            if isinstance(n, _ast.ClassDef):
+                decl[n.name] = [_ast.unparse(b).split('.')[-1] for b in n.bases]
+                for st in n.body:
+                    if isinstance(st, _ast.Assign) and any(isinstance(t, _ast.Name) and t.id == '_traversable' for t in st.targets):
+                        trav[n.name] = _ast.literal_eval(st.value)
+    built = {}
+
+    def build(name):
+        if name not in built:
+            built[name] = type(name, tuple(build(b) for b in decl.get(name, []) if b in decl) or (object,), {})
+        return built[name]
+    for n in decl:
+        build(n)
+    bodies = ('body', 'else_body', 'bodies', 'default')
+    with_bodies = sorted(n for n in decl if not n.startswith('_') and any(k.__name__ == 'Node' for k in built[n].__mro__)
+                         and any(b in trav.get(n, []) for b in bodies))
+    return built, with_bodies
+
+
+def spec_recurses(visitor, node_class, built, handlers):
+    key = next((k.__name__ for k in built[node_class].__mro__ if k.__name__ in handlers), None)
+    cls, file, meth = handlers.get(key, (None, None, None))
+
+    class Child(Node):
+        pass
+
+    class Me:
+        mapper, inplace, invalidate_source, rebuild_scopes, rebuilt = {}, True, False, False, {}
+
+        def __init__(self):
+            self.visited = []
+
+        def visit(self, o, **kw):
+            if isinstance(o, tuple):
+                for x in o:
+                    self.visit(x, **kw)
+                return o
+            self.visited.append(o)
+            return o
+
+        def _rebuild(self, o, children, **a):
+            return o
+
+    def run(env):
+        if cls is None:
+            return None
+        fn = inline(file, '%s.%s' % (cls, meth), {'is_iterable': lambda x: isinstance(x, (tuple, list)), 'as_tuple': as_tuple,
+                                                 'Pragma': Pragma})
+        o = Node('node')
+        kids = (Child('c0'), Child('c1'))
+        o.children = (kids,)            # one body holding two statements
+        o.parent = None
+
+        def upd(*a, **kw):
+            return None
+        o._update = upd
+        me = Me()
+        env['kids'] = kids
+        fn(me, o)
+        return me.visited
+
+    def post(env, r):
+        if r is None:
+            return [('a-handler-is-found', z3.BoolVal(False))]
+        seen = [x for x in r if x in env['kids']]
+        return [('statements-inside-%s-are-visited [%s.%s]' % (node_class, cls, meth), z3.BoolVal(seen == list(env['kids'])))]
+    sp = _mk(file or PU, '%s.%s' % (cls, meth) if cls else visitor, run, post, '%s dispatch for %s' % (visitor, node_class))
+    return sp
+
+
 def specs(tier='quick'):
     out = [spec_roundtrip(n, p) for n in range(0, 6) for p in (True, False)]
     for name in ('pragmas_attached', 'pragma_regions_attached'):
@@ -257,6 +360,11 @@ def specs(tier='quick'):
             for raising in (False, True):
                 out.append(spec_context(name, parts, raising))
     out += [spec_context('dfa_attached', (), False), spec_context('dfa_attached', (), True), spec_dfa_detacher()]
+    built, with_bodies = _node_classes()
+    for visitor, chain in VISITOR_CHAINS.items():
+        h = _handlers(chain)
+        for nc in with_bodies:
+            out.append(spec_recurses(visitor, nc, built, h))
     return out
 
 
